@@ -59,8 +59,21 @@ fn judge_equals<O: Clone + Debug + Eq + 'static>(o1: &O, o2: &O) -> CheckResult 
   Ok(())
 }
 
+/// A named zero-sized type (unit struct), as used for payload-free errors.
+#[derive(Clone, Copy, Debug, Serialize, Deserialize, PartialEq, Eq, Hash, Default)]
+pub struct Unit0;
+
 #[derive(Clone, Debug, Serialize, Deserialize, PartialEq, Eq, Hash)]
 pub enum Pair {
+  /// Zero-sized payloads on the Err side, the Ok side, or both; and wide payloads (size-dependent code paths).
+  ZErr(Ck, Result<u8, ()>, Result<u8, ()>),
+  ZOk(Ck, Result<(), u8>, Result<(), u8>),
+  ZBoth(Ck, Result<(), ()>, Result<(), ()>),
+  ZNamed(Ck, Result<String, Unit0>, Result<String, Unit0>),
+  ZNamedOk(Ck, Result<Unit0, String>, Result<Unit0, String>),
+  Wide(Ck, Result<[u8; 24], u64>, Result<[u8; 24], u64>),
+  EqUnit((), ()),
+  EqNamedUnit(Unit0, Unit0),
   Small(Ck, Result<u8, u8>, Result<u8, u8>),
   Text(Ck, Result<String, String>, Result<String, String>),
   Mixed(Ck, Result<(u8, String), Vec<u8>>, Result<(u8, String), Vec<u8>>),
@@ -74,16 +87,33 @@ pub fn check(p: &Pair, stats: &mut Stats) -> CheckResult {
     Pair::Small(c, a, b) => (judge_result(*c, a, b), rel(*c, a, b) != (a == b)),
     Pair::Text(c, a, b) => (judge_result(*c, a, b), rel(*c, a, b) != (a == b)),
     Pair::Mixed(c, a, b) => (judge_result(*c, a, b), rel(*c, a, b) != (a == b)),
+    Pair::ZErr(c, a, b) => (judge_result(*c, a, b), rel(*c, a, b) != (a == b)),
+    Pair::ZOk(c, a, b) => (judge_result(*c, a, b), rel(*c, a, b) != (a == b)),
+    Pair::ZBoth(c, a, b) => (judge_result(*c, a, b), rel(*c, a, b) != (a == b)),
+    Pair::ZNamed(c, a, b) => (judge_result(*c, a, b), rel(*c, a, b) != (a == b)),
+    Pair::ZNamedOk(c, a, b) => (judge_result(*c, a, b), rel(*c, a, b) != (a == b)),
+    Pair::Wide(c, a, b) => (judge_result(*c, a, b), rel(*c, a, b) != (a == b)),
+    Pair::EqUnit(a, b) => (judge_equals(a, b), false),
+    Pair::EqNamedUnit(a, b) => (judge_equals(a, b), false),
     Pair::EqOpt(a, b) => (judge_equals(a, b), a != b),
     Pair::EqTuple(a, b) => (judge_equals(a, b), a != b),
     Pair::EqVec(a, b) => (judge_equals(a, b), a != b),
   };
+  if matches!(p, Pair::ZErr(..) | Pair::ZOk(..) | Pair::ZBoth(..) | Pair::ZNamed(..) | Pair::ZNamedOk(..)) { stats.class("pair_with_zero_sized_payload_type"); }
   if nontrivial { stats.nontrivial(fingerprint(p)); stats.sample(|| json!(format!("{:?}", p))); stats.class("relation_differs_from_equality_or_unequal_pair"); }
   // Reflexivity as a separate assertion.
   let refl = match p {
     Pair::Small(c, a, _) => judge_result(*c, a, a),
     Pair::Text(c, a, _) => judge_result(*c, a, a),
     Pair::Mixed(c, a, _) => judge_result(*c, a, a),
+    Pair::ZErr(c, a, _) => judge_result(*c, a, a),
+    Pair::ZOk(c, a, _) => judge_result(*c, a, a),
+    Pair::ZBoth(c, a, _) => judge_result(*c, a, a),
+    Pair::ZNamed(c, a, _) => judge_result(*c, a, a),
+    Pair::ZNamedOk(c, a, _) => judge_result(*c, a, a),
+    Pair::Wide(c, a, _) => judge_result(*c, a, a),
+    Pair::EqUnit(a, _) => judge_equals(a, a),
+    Pair::EqNamedUnit(a, _) => judge_equals(a, a),
     Pair::EqOpt(a, _) => judge_equals(a, a),
     Pair::EqTuple(a, _) => judge_equals(a, a),
     Pair::EqVec(a, _) => judge_equals(a, a),
@@ -98,7 +128,16 @@ fn res<T: Debug + Clone + 'static, E: Debug + Clone + 'static>(t: impl Strategy<
 }
 
 pub fn strategy() -> impl Strategy<Value=Pair> {
+  fn wide() -> impl Strategy<Value=Result<[u8; 24], u64>> { res((0u8..3, 0usize..24).prop_map(|(v, i)| { let mut a = [0u8; 24]; a[i] = v; a }), prop_oneof![0u64..3, Just(1u64 << 40), Just(u64::MAX)]) }
   prop_oneof![
+    1 => (ck(), res(0u8..3, Just(())), res(0u8..3, Just(()))).prop_map(|(c, a, b)| Pair::ZErr(c, a, b)),
+    1 => (ck(), res(Just(()), 0u8..3), res(Just(()), 0u8..3)).prop_map(|(c, a, b)| Pair::ZOk(c, a, b)),
+    1 => (ck(), res(Just(()), Just(())), res(Just(()), Just(()))).prop_map(|(c, a, b)| Pair::ZBoth(c, a, b)),
+    1 => (ck(), res(small_str(), Just(Unit0)), res(small_str(), Just(Unit0))).prop_map(|(c, a, b)| Pair::ZNamed(c, a, b)),
+    1 => (ck(), res(Just(Unit0), small_str()), res(Just(Unit0), small_str())).prop_map(|(c, a, b)| Pair::ZNamedOk(c, a, b)),
+    2 => (ck(), wide(), wide()).prop_map(|(c, a, b)| Pair::Wide(c, a, b)),
+    1 => Just(Pair::EqUnit((), ())),
+    1 => Just(Pair::EqNamedUnit(Unit0, Unit0)),
     2 => (ck(), res(0u8..4, 0u8..4), res(0u8..4, 0u8..4)).prop_map(|(c, a, b)| Pair::Small(c, a, b)),
     3 => (ck(), res(small_str(), small_str()), res(small_str(), small_str())).prop_map(|(c, a, b)| Pair::Text(c, a, b)),
     3 => (ck(), res((0u8..3, small_str()), proptest::collection::vec(0u8..3, 0..3)), res((0u8..3, small_str()), proptest::collection::vec(0u8..3, 0..3))).prop_map(|(c, a, b)| Pair::Mixed(c, a, b)),
@@ -114,7 +153,7 @@ pub fn replay(path: &Path) -> Result<CheckResult, String> {
 }
 
 pub fn run(tier: Tier, seed: u64) -> i32 {
-  let rule = "all five built-in checkers through both the OutputChecker methods and the object-safe OutputCheckerObj proxy: (1) exhaustive over all 8x8 pairs of Result<u8 in 0..4, u8 in 0..4> x 5 checkers; (2) proptest-generated pairs of Result<String,String>, Result<(u8,String),Vec<u8>>, and Option/tuple/Vec values for EqualsChecker; oracle: check(o2, stamp(o1)) is consistent iff the documented relation holds, plus reflexivity; non-trivial = pair on which the relation differs from plain equality (or an unequal pair for EqualsChecker); distinct by value hash";
+  let rule = "all five built-in checkers through both the OutputChecker methods and the object-safe OutputCheckerObj proxy: (1) exhaustive over all 8x8 pairs of Result<u8 in 0..4, u8 in 0..4> x 5 checkers; (1b) exhaustive over Result<u8,()>, Result<(),u8>, Result<(),()> (zero-sized payload types); (2) proptest-generated pairs of Result<String,String>, Result<(u8,String),Vec<u8>>, Result<String,UnitStruct>, Result<UnitStruct,String>, Result<[u8;24],u64>, and Option/tuple/Vec values for EqualsChecker; oracle: check(o2, stamp(o1)) is consistent iff the documented relation holds, plus reflexivity; non-trivial = pair on which the relation differs from plain equality (or an unequal pair for EqualsChecker); distinct by value hash";
   let mut report = Report::new("C12", tier, seed, "exploration", rule);
   let known = Known::load("C12");
   super::prologue(&mut report, &known);
@@ -133,9 +172,28 @@ pub fn run(tier: Tier, seed: u64) -> i32 {
       }
     }
   }
+  // Exhaustive over the zero-sized-payload domains as well: Result<u8 in 0..3, ()>, Result<(), u8 in 0..3>, Result<(), ()>.
+  let ze: Vec<Result<u8, ()>> = (0..3).map(Ok).chain([Err(())]).collect();
+  let zo: Vec<Result<(), u8>> = [Ok(())].into_iter().chain((0..3).map(Err)).collect();
+  let zb: Vec<Result<(), ()>> = vec![Ok(()), Err(())];
+  let mut zpairs: Vec<Pair> = vec![];
+  for c in CKS {
+    for a in &ze { for b in &ze { zpairs.push(Pair::ZErr(c, *a, *b)); } }
+    for a in &zo { for b in &zo { zpairs.push(Pair::ZOk(c, *a, *b)); } }
+    for a in &zb { for b in &zb { zpairs.push(Pair::ZBoth(c, *a, *b)); } }
+  }
+  if report.violations.is_empty() {
+    for p in &zpairs {
+      exhaustive += 1;
+      if let Err(f) = check(p, &mut report.stats) {
+        report.violation("pair", &serde_json::to_value(p).unwrap(), &f, &format!("{:?}", p));
+        break;
+      }
+    }
+  }
   report.stats.evaluations += exhaustive;
   report.extra.insert("exhaustive_pairs".into(), json!(exhaustive));
-  report.extra.insert("exhaustive_scope".into(), json!("all 64 ordered pairs of Result<u8 in 0..4, u8 in 0..4> x 5 checkers x 2 routes"));
+  report.extra.insert("exhaustive_scope".into(), json!("all 64 ordered pairs of Result<u8 in 0..4, u8 in 0..4>, all 16+16+4 pairs of Result<u8 in 0..3,()>, Result<(),u8 in 0..3>, Result<(),()>, x 5 checkers x 2 routes"));
   let (shards, cases) = match tier { Tier::Quick => (4, 20000), Tier::Thorough => (16, 200000) };
   let cfg = SearchCfg { prop: "C12", label: "pair", seed, shards, cases_per_shard: cases, max_shrink_iters: 2000 };
   let (stats, found) = driver::search(&cfg, &known, strategy, |p, s| check(p, s), |p| format!("{:?}", p));
